@@ -39,6 +39,8 @@ NOT_DECIDED = {
 }
 
 
+META["explanation"] += " " + "SB-normalise additionally: in Multiply and Subtract the lowering is repeated (inside a loop whose condition tests a storage word) or the member clears; the position compared with index_ in the guard of Subtract's normalisation is the one the borrow loop stores through."
+
 def run(ctx):
     m = ctx.pattern()
     rules = []
@@ -388,6 +390,7 @@ def rule_normalise(ctx, m):
             continue
         ctx.note_fn(f)
         norm = None
+        looped = False
         for x in f.walk():
             n = f.nodes[x]
             # --index_ / index_ -= e / index_ = e
@@ -414,12 +417,52 @@ def rule_normalise(ctx, m):
                             deps.append(f.text(c_))
             if any("storage_[" in d and ("== 0" in d or "!= 0" in d or "== Number_T" in d or "!= Number_T" in d) for d in deps):
                 norm = x
-                break
+                # is the lowering repeated (inside a loop whose condition has the zero test)?
+                up = f.parents().get(x)
+                while up is not None:
+                    un = f.nodes[up]
+                    if un["k"] in ("WhileStmt", "DoStmt", "ForStmt") and un.get("cond", -1) is not None and un.get("cond", -1) >= 0 and "storage_[" in f.text(un["cond"]):
+                        looped = True
+                    up = f.parents().get(up)
+                if looped:
+                    break
         ends_clear = any(f.call_simple_name(c) == "Clear" for c in astq.calls(f))
         ok = norm is not None
         r.ob(f.sig, "index_ after %s" % f.name, ok, "index_ is lowered under a zero test of a storage word (%s)" % f.text(norm)[:40] if ok else
              "nothing in this member lowers index_ when the words it produced are zero%s: after a result of zero IsZero() is false and NotZero() true" % (" (Clear() is only one of its paths)" if ends_clear else ""),
              "Include/BigInt.hpp:%d" % f.line)
+        # how many words can become zero at once: a division by a word or a shift by less than a word empties the top word only,
+        # but a multiplication (by zero) and a subtraction that starts in the top word can leave any number of zero words on top
+        if ok and f.name.split("<")[0] in ("Multiply", "Subtract"):
+            zero_all = any(f.call_simple_name(c) == "Clear" for c in astq.calls(f)) or \
+                any(f.nodes[y]["k"] == "BinaryOperator" and f.nodes[y]["op"] == "=" and f.text(f.nodes[y]["ch"][0]).replace("this.", "") == "index_" and f.const_value(f.nodes[y]["ch"][1]) == 0 for y in f.walk())
+            r.ob(f.sig, "index_ after %s (every zero word)" % f.name, looped or zero_all, "the lowering is repeated while the top word is zero" if (looped or zero_all) else
+                 "index_ is lowered by at most one word here, but %s can leave several zero words on top (x *= 0 on a three-word value keeps index_ = 1: IsZero() is false, x == 0 is false)" % f.name,
+                 f.loc(norm))
+        # the normalisation of Subtract is conditional on the borrow having reached the top word: the position compared with index_
+        # is the one that indexes the stores of the borrow loop
+        if ok and f.name.split("<")[0] == "Subtract":
+            store_subs = set()
+            for y in f.walk():
+                yn = f.nodes[y]
+                if yn["k"] in ("CompoundAssignOperator", "BinaryOperator") and yn.get("op", "").endswith("=") and yn["op"] not in ("==", "!=", "<=", ">="):
+                    lh = f.nodes[f.strip(yn["ch"][0])]
+                    if lh["k"] == "ArraySubscriptExpr" and "storage_" in f.text(lh["ch"][0]):
+                        store_subs.add(f.text(f.strip_casts(lh["ch"][1])))
+            up = f.parents().get(norm)
+            while up is not None:
+                un = f.nodes[up]
+                if un["k"] == "IfStmt":
+                    for y in f.walk(un["cond"]):
+                        yn = f.nodes[y]
+                        if yn["k"] == "BinaryOperator" and yn["op"] in (">=", ">", "==", "<=", "<"):
+                            a_, b_ = f.text(f.strip_casts(yn["ch"][0])).replace("this.", ""), f.text(f.strip_casts(yn["ch"][1])).replace("this.", "")
+                            other = b_ if a_ == "index_" else a_ if b_ == "index_" else None
+                            if other is not None and f.const_value(yn["ch"][0]) is None and f.const_value(yn["ch"][1]) is None:
+                                okg = other in store_subs
+                                r.ob(f.sig, "guard `%s` of the normalisation" % f.text(y), okg, "`%s` is the position the borrow loop stores through" % other if okg else
+                                     "`%s` is compared with index_, but the borrow loop stores through %s: the test does not see where the borrow stopped (0x100 - 1 with 8-bit words keeps index_ = 1 over a zero word)" % (other, sorted(store_subs)), f.loc(y))
+                up = f.parents().get(up)
     return r
 
 
